@@ -529,6 +529,12 @@ pub fn end_of_run_checks(prop: &str, p: &Parsed, out: &mut Outcome, expect_exit_
         return;
     }
     if expect_exit_ok {
+        // radar always ends by a quit request or a disconnect; a harness stop means it sat in a call
+        // that would never have returned (e.g. a read without timeout) with the operator locked out
+        if let Some(LogEv::Stop { why, t }) = p.log.iter().find(|l| matches!(l, LogEv::Stop { .. })) {
+            out.violate(format!("{prop}:client-blocked-forever:{}", why.split(' ').next().unwrap_or("")), format!("at t={t}us the client entered a call that never returns ({why}); it no longer draws or serves operator events (quit included)"));
+            return;
+        }
         if r.code != Some(0) {
             out.violate(format!("{prop}:exit-status:{:?}", r.code.or(r.signal.map(|s| -s))), format!("exit status {:?} signal {:?}\nstderr:\n{}", r.code, r.signal, r.stderr.lines().take(8).collect::<Vec<_>>().join("\n")));
             return;
